@@ -63,6 +63,7 @@ class Stats:
         self.child_wall = 0.0
         self.slow = []
         self.famhist_runs = 0
+        self.treehist_runs = 0
         self.long_runs = 0
         self.long_ops = 0
         self.long_pairs = 0
@@ -73,6 +74,8 @@ class Stats:
         self.sweep_runs = 0
         self.sweep_functions = set()
         self.lock_yields = 0
+        self.aged_runs = 0
+        self.aged_ops = 0
 
     def add(self, spec, res):
         sub = spec['sub']
@@ -111,11 +114,16 @@ class Stats:
                 self.distinct_ops.add(O.op_key(op))
         if spec.get('famhist'):
             self.famhist_runs += 1
+        if spec.get('treehist'):
+            self.treehist_runs += 1
         if spec.get('long'):
             n = len(spec['clients'][0])
             self.long_runs += 1
             self.long_ops += n
             self.long_pairs += n * (n - 1) // 2
+        if spec.get('pre'):
+            self.aged_runs += 1
+            self.aged_ops += len(spec['pre'])
         self.child_wall += res.get('wall', 0)
         if res.get('wall', 0) > 5:
             self.slow.append((round(res['wall'], 1), spec['sub'], spec.get('gran'), spec['strategy'].get('kind'), len(spec['clients']),
@@ -294,7 +302,7 @@ def explore(tier, seed, repo, budget_s, stats, found, ref, probes, pool, t_end, 
     def flush(specs):
         t1 = time.time()
         ref.ensure([op for sp in specs if not sp.get('long') for cl in sp['clients'] for op in cl])
-        ref.ensure([op for sp in specs if sp.get('long') for cl in sp['clients'] for op in cl], count=False)
+        ref.ensure([op for sp in specs if sp.get('long') for cl in sp['clients'] for op in cl] + [op for sp in specs for op in sp.get('pre') or []], count=False)
         check_twice(ref, pool, found)
         t2 = time.time()
         jobs = [(sp['hashseed'], gen.attach(sp, ref, probes)) for sp in specs]
@@ -307,6 +315,8 @@ def explore(tier, seed, repo, budget_s, stats, found, ref, probes, pool, t_end, 
     # phase A: one history per family (all its ops, shuffled, twice, in one process)
     fams = sorted(c['families'])
     fh = [gen.gen_family_history(base + 800_000 + i, c, f) for i, f in enumerate(fams) if len(c['families'][f]) >= 2]
+    # ... and the tree histories: a few statements, each rendered by every dialect name on one shared tree object
+    fh += gen.gen_tree_histories(base + 850_000, c, tier == 'quick')
     ref.ensure([op for sp in fh for op in sp['clients'][0]], count=False)
     check_twice(ref, pool, found)
     t1 = time.time()
@@ -626,7 +636,7 @@ def main(tier='quick', seed=0, repo=None):
             # S3g: many more hash seeds for the grammar only.  The LALR tables are built at import from sets of token names,
             # so a hash-seed dependence of the grammar can be confined to a few per cent of the seeds; an interpreter that only
             # parses mindsdb-dialect texts starts in a third of the time, so the seeds can be many.
-            g_ops = [op for f in ('raw_queries', 'dialect_diff', 'accept_reject', 'reserved_words') for op in c['families'].get(f, [])
+            g_ops = [op for f in ('raw_queries', 'dialect_diff', 'accept_reject', 'reserved_words', 'keyword_blends') for op in c['families'].get(f, [])
                      if op['k'] == 'parse' and op['d'] == 'mindsdb']
             g_seeds = [rng.randrange(1, 1 << 32) for _ in range(n_s3g)]
             ref.ensure(s3_all + g_ops, count=False)
@@ -716,6 +726,8 @@ def main(tier='quick', seed=0, repo=None):
             'same_function_overlap_distinct_functions': len(stats.overlap),
             'same_function_overlap_named': {n: stats.overlap.get(n, 0) for n in NAMED_PROBES},
             'family_histories (all ops of one family, shuffled, twice, one process)': stats.famhist_runs,
+            'tree_histories (a few statements, each rendered under every dialect name on one shared tree object)': stats.treehist_runs,
+            's1_aged_process_runs (a single-threaded prehistory before the clients start)': stats.aged_runs, 's1_aged_prehistory_ops_executed': stats.aged_ops,
             's2_long_histories': stats.long_runs, 's2_long_ops_executed': stats.long_ops,
             's2_long_ordered_pairs (earlier op, later op) in one process': stats.long_pairs,
             'focus_sweep_runs': stats.sweep_runs, 'focus_sweep_distinct_functions': len(stats.sweep_functions),
@@ -783,7 +795,7 @@ def replay(path, repo=None):
     for cl in spec['clients']:
         for op in cl:
             ops[O.op_key(op)] = op
-    for op in spec.get('probes', []):
+    for op in spec.get('probes', []) + (spec.get('pre') or []):
         ops[O.op_key(op)] = op
     with Pool([0] * 4, repo) as rp:
         ref, _ = refs.compute(rp, list(ops.values()))
